@@ -152,7 +152,7 @@ def route_atom(attr, route):
     if route in ROUTES:
         return atom(ROUTES[route])
     if route == 'nodata':
-        return atom(GROUPS[GROUP_OF[attr]]['nodata'])
+        return atom(GROUPS[GROUP_OF[attr]]['nodata'] if attr in GROUP_OF else 'Og')
     return atom(route)
 
 
@@ -277,7 +277,7 @@ def event_group(name):
     """Lazy group an event addresses directly (None for calculators/imports of helper modules)."""
     p = name.split(':')
     if p[0] in ('read', 'hasattr', 'getattr_d'):
-        return GROUP_OF[p[1]]
+        return GROUP_OF.get(p[1])      # None for names outside the alphabet (e.g. nuclear_spin)
     if p[0] in ('init', 'reinit'):
         if p[1] == 'emission':
             return 'emission'
@@ -671,7 +671,7 @@ def repo_root():
 
 def pycache_dir():
     here = os.path.dirname(os.path.dirname(os.path.abspath(__file__)))
-    return os.path.join(here, 'out', 'C09', 'pycache')
+    return os.path.join(os.environ.get('VERIF_OUT') or os.path.join(here, 'out'), 'C09', 'pycache')
 
 
 def enable_bytecode_cache():
